@@ -280,14 +280,18 @@ fn run_modify(c: &ProbeCase, obs: &mut Obs) -> Result<(), String> {
     let mut eg: EGraph<Core, WrapElim> = new_egraph(WrapElim, false);
     let slot_set = |a: &AppliedId| -> BTreeSet<Slot> { a.slots().iter().copied().collect() };
     let mut merged_on_arrival = 0usize;
+    let mut prev = (0usize, 0usize);
     let st = drive::<Core, WrapElim>(&c.base, &mut eg, &mut |eg, st, op| {
+        let pr = eg.progress();
+        let now = (pr.number_of_classes, pr.number_of_live_classes);
         if let MOp::Add(t) | MOp::AddSyn(t) = op {
+            // classes were allocated by this insertion, but fewer stayed alive: some class was merged away during the insertion
+            if now.0 > prev.0 && now.1 < prev.1 + (now.0 - prev.0) {
+                merged_on_arrival += 1;
+            }
             // the invocation an insertion returns already omits the slots its class does not have
             let a = st.handles.last().unwrap();
             let f = eg.find_applied_id(a);
-            if f.id != a.id {
-                merged_on_arrival += 1;
-            }
             if slot_set(a) != slot_set(&f) {
                 return Err(format!("inserting {} returned {:?}, whose slots differ from those of its canonical form {:?}", t.render(nm), a, f));
             }
@@ -295,6 +299,7 @@ fn run_modify(c: &ProbeCase, obs: &mut Obs) -> Result<(), String> {
                 return Err(format!("inserting {} returned {:?}, which is not equal to its own canonical form {:?}", t.render(nm), a, f));
             }
         }
+        prev = now;
         Ok(())
     })?;
     let tracked = st.handles.clone();
@@ -731,7 +736,7 @@ pub fn property(tier: Tier) -> Property {
             run: run_modify,
             panic_is_violation: false,
             render,
-            rule: "a reachable e-graph with an analysis whose modify hook asserts w(w(x)) = x and (p x c0) = c0 by unions of its own (terms rich in w), then probe terms: every invocation returned by an insertion - in the history and for the probes - has exactly the slots of its canonical form and is equal to it, its slots are free names of the term, lookup afterwards returns an equal invocation with the same slots, a second insertion changes nothing and returns the same; non-trivial = some insertion's new class was merged away during that insertion",
+            rule: "a reachable e-graph with an analysis whose modify hook asserts w(w(x)) = x and (p x c0) = c0 by unions of its own (terms rich in w), then probe terms: every invocation returned by an insertion - in the history and for the probes - has exactly the slots of its canonical form and is equal to it, its slots are free names of the term, lookup afterwards returns an equal invocation with the same slots, a second insertion changes nothing and returns the same; non-trivial = during some insertion a class was allocated and merged away again (classes allocated grew by more than live classes)",
             case_timeout_s: tier.pick(30, 120),
             exhaustive: false,
         }));
